@@ -75,12 +75,23 @@ def run(ctx):
         return
 
     # ---- entry points = bodies calling an applier
+    # (a private helper that classifies and applies on behalf of its callers is spliced into them: the lock the rules ask
+    # about is taken by the entry point, not by the helper)
     entry_sites = []
+    roots = set()
     for ap_id in appliers:
         for b in prog.bodies.containing(json.dumps(ap_id)):
-            for cs in b.calls():
-                if cs.callee in appliers:
-                    entry_sites.append((b, cs))
+            if any(cs.callee in appliers for cs in b.calls()):
+                roots |= prog.owner_roots(b.root)
+    keep_rx = '|'.join(re.escape(a) + '$' for a in sorted(appliers))
+    cls_fns = sorted(b.id for b in prog.bodies.in_files(['src/monotonic_counter.rs']) if not b.parent and b.locals and b.local_ty(0) == RES
+                     and not prog.reaches_call(b.id, lambda cs: cs.callee in appliers, depth=3))
+    for r in sorted(roots):
+        # classifiers are not known yet: keep every fn returning the verdict type as a call
+        ib = prog.inl(r, keep=keep_rx + ''.join('|' + re.escape(c) + '$' for c in cls_fns))
+        for cs in ib.calls():
+            if cs.callee in appliers:
+                entry_sites.append((ib, cs))
     # the classifier = in-crate fn returning SequenceValidationResult called in those bodies
     classifiers = set()
     for b, cs in entry_sites:
